@@ -40,6 +40,9 @@ func H_smoke(p []int) {
 	wf, ls := wfls([]byte(out))
 	vAssert(wf, "C01/wf")
 	vAssert(ls, "C03/lineSafe")
+	if vProp("C03") {
+		vAssert(linesWF([]byte(out)), "C03/each-line-wf")
+	}
 }
 
 func init() {
